@@ -62,6 +62,8 @@ def cells(tier, seed):
             out.append({"k": "pat", "n": n, "shape": sh})
     for what in ("set", "map"):
         out.append({"k": "order", "what": what, "n": b["order_elements"]})
+        for first in range(len(mixpool())):
+            out.append({"k": "ordermix", "what": what, "first": first})
     lad = ladder()
     for i in range(0, len(lad), 8):
         out.append({"k": "dec", "lo": i, "hi": min(len(lad), i + 8)})
@@ -72,6 +74,13 @@ def cells(tier, seed):
         for first in range(len(ops)):
             out.append({"k": "seq", "kind": kind, "first": first, "n": 3 if tier == "quick" else 4})
     return out
+
+
+def mixpool():
+    """values of different kinds (containers among them) that can sit next to each other in a set / as map keys"""
+    import ckl.values as V
+    return [vset([]), vset([vint(1)]), vmap([]), vset([V.TRUE]), vlist([vint(1)]), vmap([(vint(1), vint(2))]),
+            vset([vstr("a")]), vint(5), vstr("<<"), vset([vint(10)]), vset([vint(9)]), vlist([]), V.NULL]
 
 
 def wrap(shape, leaf):
@@ -183,6 +192,31 @@ def run(ctx, cell):
         ctx.check(ra == rb, "C08:order:%s:rendering-depends-on-construction-order" % cell["what"],
                   lambda: {"a": str(ra), "b": str(rb)})
         return roundtrip(ctx, "C08:order:" + cell["what"], b)
+    if k == "ordermix":
+        ctx.reach("order")
+        p = mixpool()
+        i0 = cell["first"]
+        i1 = ctx.choice("b", len(p))
+        i2 = ctx.choice("c", len(p))
+        if i1 <= i0 or i2 <= i1:
+            return ["dup"]
+        els = [p[i0], p[i1], p[i2]]
+        perm = ctx.perm("p", 3)
+        if cell["what"] == "set":
+            a, b = vset(els), vset([els[i] for i in perm])
+        else:
+            a, b = vmap([(e, vint(i)) for i, e in enumerate(els)]), vmap([(els[i], vint(i)) for i in perm])
+        ra, rb = srepr(a), srepr(b)
+        ctx.check(ra == rb, "C08:ordermix:%s:rendering-depends-on-construction-order" % cell["what"],
+                  lambda: {"a": str(ra), "b": str(rb)})
+        if cell["what"] == "map" and any(e.isNull() for e in els):
+            # a NULL key is rendered as the bare word NULL, which a map literal reads as the string 'NULL'
+            out = run_ckl(str(rb))
+            ok = out.kind == "ok" and out.value == b
+            ctx.check(ok, "C08:mapkey-null:rendered-key-NULL-reads-back-as-string",
+                      lambda: {"text": str(rb), "got": ctx.plain(out)})
+            return out
+        return roundtrip(ctx, "C08:ordermix:" + cell["what"], b)
     if k == "dec":
         ctx.reach("dec")
         lad = ladder()
